@@ -88,8 +88,8 @@ def run_parallel_collect(n, w, collect, aggregator=True):
     return out
 
 
-def run_parallel_gated(n, w, finish, aggregator=True):
-    """Binder (i): real thread-pool timing, branches finish in the order TLC chose."""
+def run_parallel_gated(n, w, finish, aggregator=True, no_grad=False):
+    """Binder (i): real thread-pool timing, branches finish in the order TLC chose. no_grad: the model is called under torch.no_grad()."""
     from kaira.models.generic import ParallelModel
     started = [threading.Event() for _ in range(n + 1)]
     gate = [threading.Event() for _ in range(n + 1)]
@@ -110,7 +110,11 @@ def run_parallel_gated(n, w, finish, aggregator=True):
 
     def main():
         try:
-            box["out"] = model("x")
+            if no_grad:
+                with torch.no_grad():
+                    box["out"] = model("x")
+            else:
+                box["out"] = model("x")
         except BaseException as e:  # noqa
             box["exc"] = e
 
@@ -119,6 +123,8 @@ def run_parallel_gated(n, w, finish, aggregator=True):
     try:
         for b in finish:
             if not started[b].wait(20):
+                if no_grad:
+                    break           # a branch that never starts under no_grad is reported through the outcome (the run is released below)
                 raise tlc.TLCFailure("gated replay: branch %d never started (n=%d w=%s finish=%s)" % (b, n, w, finish))
             gate[b].set()
             done[b].wait(20)
@@ -546,12 +552,13 @@ def run(run):
                         run.case(("collect", n, mw, col, agg), nontrivial=n >= 2)
             # gated binder: every feasible finish order on w workers, real timing
             fsel = fins if (n <= 3 or not quick) else rng.sample(fins, min(len(fins), 8))
-            for fin in fsel:
-                out = run_parallel_gated(n, w, fin, aggregator=True)
+            for fi_, fin in enumerate(fsel):
+                ng = fi_ % 2 == 1                     # every other schedule with the model called under torch.no_grad()
+                out = run_parallel_gated(n, w, fin, aggregator=True, no_grad=ng)
                 tid += 1
-                sched_keys[tid] = {"n": n, "w": w, "binder": "gated", "order": list(fin), "aggregator": True}
+                sched_keys[tid] = {"n": n, "w": w, "binder": "gated" + (" under no_grad" if ng else ""), "order": list(fin), "aggregator": True}
                 events.append(par_event(tid, n, out, True))
-                run.case(("gated", n, w, fin), nontrivial=n >= 2)
+                run.case(("gated", n, w, fin, ng), nontrivial=n >= 2)
     run.sample({"schedule": sched_keys[min(len(sched_keys), 7)], "event": events[min(len(events), 7) - 1]})
     run.log("%d schedule replays on the real ParallelModel" % len(events))
     mism = tv.validate(run, "Trace_Pipelines", events, name="TV parallel schedules", count_trace=False)
